@@ -154,8 +154,32 @@ fn root_cases(sh: Shape, signed: bool) -> BoxedStrategy<(Pat, u32)> {
         let z = if !z.fits(w, signed) { Z::max_of(w, signed) } else { z };
         (wrap(z), n)
     });
+    // strictly between two consecutive powers: x = r^n + delta, 0 <= delta < (r+1)^n - r^n, with r of any
+    // size (structured pattern, 2^k, 2^k * small) - the leading bits of x are then those of an exact power
+    let between = (degrees.clone(), gen::pattern(sh), 0u64..maxbits, 0u8..4, gen::pattern(sh), 0u8..5, any::<bool>()).prop_map(move |(n, r, rbits, rmode, d, dmode, neg)| {
+        let rb = (maxbits / n as u64).max(1);
+        let bits = 1 + rbits % rb;
+        let r = match rmode {
+            0 => Z::pow2(bits - 1),
+            1 => Z::pow2(bits - 1).mul(&Z::from_u64(1 + (r.0[0] as u64 % 7))),
+            _ => Z::from_le_unsigned(&r.0).mod_2k(bits - 1).add(&Z::pow2(bits - 1)),
+        };
+        let top = Z::pow2(maxbits).add_i(-1);
+        let lo = match r.pow_capped(n, maxbits) { Some(v) => v, None => return (wrap(top), n) };
+        let hi = r.add_i(1).pow_capped(n, maxbits).unwrap_or_else(|| Z::pow2(maxbits)); // exclusive
+        let gap = hi.sub(&lo);
+        let delta = match dmode {
+            0 => gap.add_i(-1),
+            1 => gap.shr_floor(1),
+            2 => Z::from_le_unsigned(&d.0).divrem_trunc(&gap).1.shr_floor((d.0[0] % 64) as u64),
+            _ => Z::from_le_unsigned(&d.0).divrem_trunc(&gap).1,
+        };
+        let x = lo.add(&delta);
+        let x = if x.bit_len() > maxbits { top } else { x };
+        (wrap(if neg && signed && n % 2 == 1 { x.neg() } else { x }), n)
+    });
     let top = (degrees, 0u64..4).prop_map(move |(n, k)| (wrap(Z::pow2(maxbits).add_i(-1 - k as i64)), n));
-    prop_oneof![5 => exact, 4 => general, 1 => top].boxed()
+    prop_oneof![5 => exact, 4 => between, 4 => general, 1 => top].boxed()
 }
 
 fn eval_roots<T: NT>(c: &(Pat, u32), obs: &mut Obs) -> Result<(), String> {
@@ -377,7 +401,7 @@ fn main() {
     runner::main(
         Property {
             id: "C18",
-            rule: "All methods are called through the traits (UFCS). Division pairs: structured patterns, small divisors of both signs, divisors of reduced magnitude; gcd/lcm: (g*x, g*y) with small cofactors and shared powers of two, equal operands, zero, powers of two; roots: x in {r^n, r^n +- 1, top of the range, structured patterns} below and above 2^128 with degrees {1, 2, 3, 4, 5, 7, 8, 16, 40, 63, 64, 65, uniform < 80, uniform <= BITS + 2, BITS-1, BITS, BITS+1, 2^31, u32::MAX}, negative x with odd degrees. Oracle: reference integer (floor division with the remainder taking the divisor's sign, truncating div_rem, Euclid, gcd >= 0, lcm = |a*b|/gcd when representable); roots are VERIFIED on the returned value (r^n <= |x| < (r+1)^n, sign preserved), which is a complete oracle by uniqueness; signed_/unsigned_ shifts against arithmetic / logical shifts of the pattern; MulAdd when representable; Bounded/Zero/One/Num/Pow and the Checked*/Wrapping*/Saturating*/Overflowing* forwarders against the inherent methods; a panic is a violation whenever the result is representable. At 8/32/64/128 bits num-integer's own impls for the primitive of equal width are a second oracle. NON-TRIVIAL: div_floor/mod_floor with operands of opposite sign and non-zero remainder; roots with x >= 2^128 or degree >= 4; gcd with both operands >= 2 digits; every forwarder case. distinct = distinct (profile, job, inputs) by 64-bit hash.",
+            rule: "All methods are called through the traits (UFCS). Division pairs: structured patterns, small divisors of both signs, divisors of reduced magnitude; gcd/lcm: (g*x, g*y) with small cofactors and shared powers of two, equal operands, zero, powers of two; roots: x in {r^n, r^n +- 1, r^n + delta strictly between consecutive powers (r = 2^k, 2^k * small or a structured pattern of any size; delta = gap-1, gap/2, uniform, small), top of the range, structured patterns} below and above 2^128 with degrees {1, 2, 3, 4, 5, 7, 8, 16, 40, 63, 64, 65, uniform < 80, uniform <= BITS + 2, BITS-1, BITS, BITS+1, 2^31, u32::MAX}, negative x with odd degrees. Oracle: reference integer (floor division with the remainder taking the divisor's sign, truncating div_rem, Euclid, gcd >= 0, lcm = |a*b|/gcd when representable); roots are VERIFIED on the returned value (r^n <= |x| < (r+1)^n, sign preserved), which is a complete oracle by uniqueness; signed_/unsigned_ shifts against arithmetic / logical shifts of the pattern; MulAdd when representable; Bounded/Zero/One/Num/Pow and the Checked*/Wrapping*/Saturating*/Overflowing* forwarders against the inherent methods; a panic is a violation whenever the result is representable. At 8/32/64/128 bits num-integer's own impls for the primitive of equal width are a second oracle. NON-TRIVIAL: div_floor/mod_floor with operands of opposite sign and non-zero remainder; roots with x >= 2^128 or degree >= 4; gcd with both operands >= 2 digits; every forwarder case. distinct = distinct (profile, job, inputs) by 64-bit hash.",
             assumptions: &[
                 "gcd/lcm whose value is unrepresentable, even roots of negative numbers, degree 0, is_multiple_of(0), NumCast::from and (MIN, -1) are outside the property",
                 "the arithmetic forwarders are compared with the inherent methods, whose own correctness is C01-C08",
